@@ -198,12 +198,13 @@ theorem mixed_channel (refs : List (Str × Str)) (tag : Str) (c : Cell) (items :
 
 /-- one reference (the instance the DESIGN plan asked for first), spelled out -/
 theorem mixed_one_ref (refs : List (Str × Str)) (tag a n b xp : Str) (htag : isName tag = true)
-    (ha : TextOk a) (hb : TextOk b) (hn : NameOk n) (hx : lookup n refs = some xp) (hv : ValOk (' ' :: xp ++ [' ']))
+    (ha : TextOk a) (hb : TextOk b) (hn : NameOk n) (hls : startsWith n lastSavedTag = false)
+    (hx : lookup n refs = some xp) (hv : ValOk (' ' :: xp ++ [' ']))
     (hi : NoInstanceExpr (a ++ refMarkup n ++ b)) :
     mixedChannel refs tag (a ++ refMarkup n ++ b) =
       .ok (.elem tag [] (chunk true (normEol a) ++ outputNode (' ' :: xp ++ [' ']) :: chunk true (normEol b))) := by
   have hc : CellOk refs ⟨a, [(n, b)]⟩ [(' ' :: xp ++ [' '], b)] :=
-    ⟨ha, ⟨hn, hb.1, trivial⟩, by simp [resolve, varRepl, hx], ⟨hv, hb.2, trivial⟩, by simp⟩
+    ⟨ha, ⟨hn, hb.1, trivial⟩, by simp [resolve, varReplName, hls, varRepl, hx], ⟨hv, hb.2, trivial⟩, by simp⟩
   have := mixed_channel refs tag ⟨a, [(n, b)]⟩ _ htag hc (by simpa [Cell.text, Cell.tailText] using hi)
   simpa [Cell.text, Cell.tailText, cellKids, itemsKids] using this
 
@@ -409,7 +410,7 @@ example : mixedChannel exRefs "label".toList "<output value=\"/data/a\"/> $ {a} 
 example : mixedChannel exRefs "label".toList "x < ${a} & y".toList =
     .ok (.elem "label".toList [] [.text true "x < ".toList, outputNode " /data/a ".toList, .text true " & y".toList]) :=
   mixed_one_ref exRefs _ "x < ".toList "a".toList " & y".toList "/data/a".toList (by decide) (by decide) (by decide)
-    (by decide) (by decide) (by decide) (by decide)
+    (by decide) (by decide) (by decide) (by decide) (by decide)
 
 -- the guards are needed.  In the mixed channel the re-parse comes before the character check: a control
 -- character next to a reference is an expat error inside `node()` (open finding F4-reparse-non-xml-char) …
@@ -420,8 +421,65 @@ example : parseDoc (renderDoc false (nodeText "label".toList ['a', Char.ofNat 1,
 -- an unknown name is an error:
 example : (match mixedChannel exRefs "label".toList "x ${zz}".toList with | .pyxformError => true | _ => false) = true := by
   decide +kernel
--- a `last-saved#` reference is handled by the model (correspondence) but excluded by `NameOk`:
-example : ¬ NameOk "last-saved#a".toList := by decide
+-- `${last-saved#name}` is covered by the same theorem (the marker is resolved by `varReplName`):
+def exCellLS : Cell := ⟨"saved <b>: ".toList, [("last-saved#a".toList, " & now ".toList), ("a".toList, [])]⟩
+def exItemsLS : List (Str × Str) :=
+  [(" instance('__last-saved')/data/a ".toList, " & now ".toList), (" /data/a ".toList, [])]
+theorem exCellLS_ok : CellOk exRefs exCellLS exItemsLS :=
+  ⟨by decide, ⟨by decide, by decide, by decide, by decide, trivial⟩, by decide,
+   ⟨by decide, by decide, by decide, by decide, trivial⟩, by decide⟩
+example : mixedChannel exRefs "hint".toList exCellLS.text =
+    .ok (.elem "hint".toList [] (cellKids true exCellLS.head exItemsLS)) :=
+  mixed_channel exRefs _ exCellLS exItemsLS (by decide) exCellLS_ok (by decide +kernel)
+
+/-! ## 7. instance() expressions: what the code does, pinned on the model (the open findings as exact witnesses)
+
+`spec…` is what the property demands (the expression, as typed, is the value of one `output`; the text around it
+is text; further references are further outputs); the theorems state what the model of the code computes
+instead.  The same inputs are in the check's directed stream, where the implementation is compared. -/
+
+/-- the element of an `.ok` outcome -/
+def okNode : Outcome Node → Option Node
+  | .ok n => some n
+  | _ => none
+
+def outp (v : String) : Node := outputNode v.toList
+def txt (s : String) : Node := .text true s.toList
+
+/-- a well-behaved cell: expression with a reference in its predicate, text around it, a second reference -/
+theorem instance_expr_ok :
+    okNode (mixedChannel exRefs "label".toList "x instance('l')/root/item[name = ${a}]/label y ${b2}".toList) =
+      some (.elem "label".toList []
+        [txt "x ", outp "instance('l')/root/item[name =  /data/a ]/label", txt " y ", outp " /data/g/b2 "]) := by
+  decide +kernel
+
+/-- **F15**: ` and ${a}` after the path is swallowed into the output's value (demanded:
+    `[outp "instance('l')/root/item[name = 'c1']/label", txt " and ", outp " /data/a ", txt " tail"]`) -/
+theorem F15_witness :
+    okNode (mixedChannel exRefs "label".toList "instance('l')/root/item[name = 'c1']/label and ${a} tail".toList) =
+      some (.elem "label".toList []
+        [outp "instance('l')/root/item[name = 'c1']/label and  /data/a ", txt " tail"]) := by
+  decide +kernel
+
+/-- **F39**: the expression is escaped twice; the reader finds `&lt;` where `<` was typed -/
+theorem F39_witness :
+    okNode (mixedChannel exRefs "label".toList "x instance('l')/root/item[name < 3]/label y".toList) =
+      some (.elem "label".toList []
+        [txt "x ", outp "instance('l')/root/item[name &lt; 3]/label", txt " y"]) := by
+  decide +kernel
+
+/-- **F40**: a quote before the expression hides it from `find_boundaries`: no output at all -/
+theorem F40_witness :
+    okNode (mixedChannel exRefs "label".toList "it's instance('l')/root/item[name = 1]/label".toList) =
+      some (nodeText "label".toList "it's instance('l')/root/item[name = 1]/label".toList) := by
+  decide +kernel
+
+/-- the boundaries themselves, for the F15 input: ONE expression spanning up to the end of ` /data/a`'s
+    source `${a}` (positions in the escaped text) -/
+theorem F15_boundaries :
+    (Lexer.parseExpression "instance('l')/root/item[name = 'c1']/label and ${a} tail".toList).map
+      (fun r => findBoundaries r.1) = some [(0, 51)] := by
+  decide +kernel
 
 #print axioms mixed_channel
 #print axioms shape_noninterference
